@@ -4,6 +4,7 @@ import (
 	"fmt"
 	"go/types"
 	"reflect"
+	"sync"
 	"unsafe"
 
 	"github.com/vektah/gqlparser/v2"
@@ -214,6 +215,13 @@ func (m *Machine) safeNative(what string, f func()) {
 	f()
 }
 
+type schemaCacheEntry struct {
+	sc  *ast.Schema
+	err error
+}
+
+var schemaCache sync.Map
+
 func init() {
 	const gp = "github.com/vektah/gqlparser/v2."
 	loadSchema := func(must bool) func(m *Machine, a []Value) Value {
@@ -222,7 +230,19 @@ func init() {
 			m.safeNative("LoadSchema", func() {
 				ex := m.newExporter()
 				srcs := ex.Export(a[0], reflect.TypeOf([]*ast.Source{})).Interface().([]*ast.Source)
-				sc, err := gqlparser.LoadSchema(srcs...)
+				key := "LoadSchema"
+				for _, s := range srcs {
+					key += "\x00" + s.Name + "\x00" + s.Input
+				}
+				var sc *ast.Schema
+				var err error
+				if c, ok := schemaCache.Load(key); ok {
+					// the native result is only read by the importer: safe to share between paths
+					sc, err = c.(*schemaCacheEntry).sc, c.(*schemaCacheEntry).err
+				} else {
+					sc, err = gqlparser.LoadSchema(srcs...)
+					schemaCache.Store(key, &schemaCacheEntry{sc, err})
+				}
 				im := m.importerSeeded(ex)
 				if must {
 					if err != nil {
@@ -237,6 +257,7 @@ func init() {
 					e = im.Import(reflect.ValueOf(&ei).Elem())
 				}
 				res = Tuple{im.Import(reflect.ValueOf(sc)), e}
+				m.freezeKeyed(key, res)
 			})
 			return res
 		}
@@ -260,6 +281,11 @@ func init() {
 					return
 				}
 				res = Tuple{im.Import(reflect.ValueOf(doc)), im.Import(reflect.ValueOf(errs))}
+				if tag := m.regionTagOf(a[0]); tag != "" {
+					m.freezeKeyed("LoadQuery\x00"+tag+"\x00"+q, res)
+				} else {
+					m.freeze(res)
+				}
 			})
 			return res
 		}
